@@ -257,6 +257,12 @@ func (b *bEnv) call(n *ast.CallExpr) bVal {
 		return bScalar{App(fmt.Sprintf("%s%d", fn.Name, len(ts)), SInt, ts...)}
 	}
 	switch fn.Name {
+	case "unbox":
+		// the value inside an interface value whose dynamic value the execution knows (a boxed scalar)
+		if iv, ok := b.Eval(arg(0)).(*bIface); ok && iv.val != nil {
+			return iv.val
+		}
+		panic(verr("spec(B): unbox(%s): not an interface value with a known dynamic value", exprString(arg(0))))
 	case "contentid":
 		// an integer naming the contents of a value (access path + store version, scalars by value)
 		ts := b.e.contentTerms(b.state(), b.Eval(arg(0)), arg(0))
